@@ -25,6 +25,45 @@ type edit struct {
 	line       int
 }
 
+func isLogCall(st ast.Stmt) bool {
+	es, ok := st.(*ast.ExprStmt)
+	if !ok {
+		return false
+	}
+	call, ok := es.X.(*ast.CallExpr)
+	if !ok {
+		return false
+	}
+	sel, ok := call.Fun.(*ast.SelectorExpr)
+	if !ok {
+		return false
+	}
+	id, ok := sel.X.(*ast.Ident)
+	return ok && id.Name == "log"
+}
+
+func logOnly(b *ast.BlockStmt) bool {
+	if b == nil || len(b.List) == 0 {
+		return false
+	}
+	for _, st := range b.List {
+		if !isLogCall(st) {
+			return false
+		}
+	}
+	return true
+}
+
+func logOnlyElse(e ast.Stmt) bool {
+	switch x := e.(type) {
+	case *ast.BlockStmt:
+		return logOnly(x)
+	case *ast.IfStmt:
+		return logOnly(x.Body) && (x.Else == nil || logOnlyElse(x.Else))
+	}
+	return false
+}
+
 func main() {
 	file, out := os.Args[1], os.Args[2]
 	src, err := os.ReadFile(file)
@@ -68,6 +107,14 @@ func main() {
 					add("BINOP", x.OpPos, x.OpPos+token.Pos(len(x.Op.String())), r)
 				}
 			case *ast.IfStmt:
+				// a condition that only selects what is logged is not behaviour: skip it and
+				// the operators inside it
+				if logOnly(x.Body) && (x.Else == nil || logOnlyElse(x.Else)) {
+					if x.Init != nil {
+						ast.Inspect(x.Init, func(ast.Node) bool { return true })
+					}
+					return false
+				}
 				add("NEGCOND", x.Cond.Pos(), x.Cond.End(), "!("+string(src[off(x.Cond.Pos()):off(x.Cond.End())])+")")
 			case *ast.ExprStmt:
 				if call, isCall := x.X.(*ast.CallExpr); isCall {
@@ -111,9 +158,8 @@ func main() {
 			case *ast.BasicLit:
 				if x.Kind == token.INT {
 					if v, err := strconv.ParseInt(x.Value, 0, 64); err == nil {
-						add("CONST", x.Pos(), x.End(), strconv.FormatInt(v+1, 10))
-						if v > 0 {
-							add("CONST", x.Pos(), x.End(), strconv.FormatInt(v-1, 10))
+						if v <= 1 {
+							add("CONST", x.Pos(), x.End(), strconv.FormatInt(1-v, 10))
 						}
 					}
 				}
